@@ -1,22 +1,65 @@
 ------------------------------- MODULE Feature -------------------------------
-(* Packing of float vectors into blocks of 8 lanes, and exact Euclidean /      *)
-(* cosine ingredients on small-integer vectors.                                 *)
+(* Property C16.  Packing of float vectors into blocks of 8 lanes and the exact  *)
+(* ingredients of the Euclidean distance and the cosine similarity on vectors of *)
+(* small integers.  A value v of a vector stands for the real number v * 2^e     *)
+(* (e = the case's unit exponent, applied by the replay); all sums below are in  *)
+(* units of 2^e resp. 4^e and stay far below 2^24, so the f32 arithmetic of an   *)
+(* implementation is exact up to the final sqrt / division.                      *)
 EXTENDS Integers, Sequences
 Lanes == 8
-Blocks(n) == IF n = 0 THEN {0, 1} ELSE {(n + Lanes - 1) \div Lanes}       \* empty vector: 0 or 1 block accepted
 PackedLen(n) == ((n + Lanes - 1) \div Lanes) * Lanes
+(* an empty vector may pack to nothing or to one zero block *)
+PackedLens(n) == IF n = 0 THEN {0, Lanes} ELSE {PackedLen(n)}
 Padded(v, m) == [i \in 1..m |-> IF i <= Len(v) THEN v[i] ELSE 0]
-(* deterministic pseudo-random small-integer vector of length n *)
-Gen(seed, n) == [i \in 1..n |-> ((seed * 31 + i * 17 + ((i * i) % 7)) % 5) - 2]
-Common(n1, n2) == IF PackedLen(n1) <= PackedLen(n2) THEN PackedLen(n1) ELSE PackedLen(n2)
+Pack(v) == Padded(v, PackedLen(Len(v)))
+(* distances use the common packed prefix: the longer vector is truncated to the *)
+(* packed length of the shorter one                                              *)
+Common(a, b) == IF PackedLen(Len(a)) <= PackedLen(Len(b)) THEN PackedLen(Len(a)) ELSE PackedLen(Len(b))
 RECURSIVE Sum(_, _)
 Sum(f, m) == IF m = 0 THEN 0 ELSE f[m] + Sum(f, m - 1)
-SqDist(a, b) == LET m == Common(Len(a), Len(b))  pa == Padded(a, m)  pb == Padded(b, m) IN
+SqDist(a, b) == LET m == Common(a, b)  pa == Padded(a, m)  pb == Padded(b, m) IN
                 Sum([i \in 1..m |-> (pa[i] - pb[i]) * (pa[i] - pb[i])], m)
-Dot(a, b) == LET m == Common(Len(a), Len(b))  pa == Padded(a, m)  pb == Padded(b, m) IN Sum([i \in 1..m |-> pa[i] * pb[i]], m)
-(* norms are taken over the common packed prefix as well *)
-Norm2(a, b) == LET m == Common(Len(a), Len(b))  pa == Padded(a, m) IN Sum([i \in 1..m |-> pa[i] * pa[i]], m)
+Dot(a, b) == LET m == Common(a, b)  pa == Padded(a, m)  pb == Padded(b, m) IN Sum([i \in 1..m |-> pa[i] * pb[i]], m)
+(* squared norm of a over the prefix it shares with b *)
+Norm2(a, b) == LET m == Common(a, b)  pa == Padded(a, m) IN Sum([i \in 1..m |-> pa[i] * pa[i]], m)
+Scale(a, k) == [i \in 1..Len(a) |-> k * a[i]]
+(* euclidean(a, b) = sqrt(SqDist(a, b)) * 2^e ;  cosine(a, b) = Dot / sqrt(Norm2(a,b) * Norm2(b,a)), defined *)
+(* when both norms are positive                                                                                *)
+CosDefined(a, b) == Norm2(a, b) > 0 /\ Norm2(b, a) > 0
+Query(x, y, a, b) == [x |-> x, y |-> y, sq |-> SqDist(a, b), dot |-> Dot(a, b), nx |-> Norm2(a, b), ny |-> Norm2(b, a),
+                      cos |-> IF CosDefined(a, b) THEN 1 ELSE 0]
+
+(* ---- the facts the property states, in exact integer form ---- *)
 SymmetricD(a, b) == SqDist(a, b) = SqDist(b, a) /\ Dot(a, b) = Dot(b, a)
 ZeroSelf(a) == SqDist(a, a) = 0
+(* |cos| <= 1 *)
 CauchySchwarz(a, b) == Dot(a, b) * Dot(a, b) <= Norm2(a, b) * Norm2(b, a)
+(* cos(k a, a) = 1 and cos(-k a, a) = -1 for k > 0 and a # 0: equality in Cauchy-Schwarz with the right sign *)
+Parallel(a, k) == LET ka == Scale(a, k) IN
+                  CosDefined(a, a) => /\ Dot(ka, a) > 0 /\ Dot(ka, a) * Dot(ka, a) = Norm2(ka, a) * Norm2(a, ka)
+Opposite(a, k) == LET na == Scale(a, -k) IN
+                  CosDefined(a, a) => /\ Dot(na, a) < 0 /\ Dot(na, a) * Dot(na, a) = Norm2(na, a) * Norm2(a, na)
+(* cos(k a, b) = cos(a, b): the dot product scales by k, the squared norm by k^2 *)
+ScaleInv(a, b, k) == LET ka == Scale(a, k) IN Dot(ka, b) = k * Dot(a, b) /\ Norm2(ka, b) = k * k * Norm2(a, b) /\ Norm2(b, ka) = Norm2(b, a)
+(* sqrt(dac) <= sqrt(dab) + sqrt(dbc)  <=>  dac - dab - dbc <= 0  \/  (dac - dab - dbc)^2 <= 4 dab dbc *)
+Triangle(a, b, c) == LET dab == SqDist(a, b)  dbc == SqDist(b, c)  dac == SqDist(a, c)  r == dac - dab - dbc IN
+                     r <= 0 \/ r * r <= 4 * dab * dbc
+(* padding: the packed form has a multiple of 8 values, starts with the vector and ends with zeros *)
+PackFacts(a) == LET p == Pack(a) IN /\ (Len(p) % Lanes) = 0 /\ Len(p) >= Len(a) /\ Len(p) < Len(a) + Lanes
+                                   /\ \A i \in 1..Len(p) : p[i] = IF i <= Len(a) THEN a[i] ELSE 0
+
+(* ---- deterministic pseudo-random vectors: values {-2..2} * 2^shift, shift in 0..2 ---- *)
+P == 46337                                 \* prime, P * P < 2^31
+Mix(s, i, salt) == LET x == ((s % P) * 7919 + i * 10477 + (salt % P) * 611) % P
+                       y == (((x * x) % P) + 3 * x + 7) % P
+                   IN (y * y) % P
+Pow2(k) == IF k = 0 THEN 1 ELSE IF k = 1 THEN 2 ELSE 4
+Gen(s, n, salt) == LET sh == Pow2((Mix(s, 0, salt) \div 7) % 3) IN
+                   [i \in 1..n |-> (((Mix(s, i, salt) \div 7) % 5) - 2) * sh]
+(* the same without the shift: values {-2..2} (keeps the products of the triangle form below 2^31) *)
+GenU(s, n, salt) == [i \in 1..n |-> ((Mix(s, i, salt) \div 7) % 5) - 2]
+(* the point beyond b on the line from a through b, at twice the distance: the triangle a, b, Far is flat *)
+Far(a, b, m) == LET pa == Padded(a, m)  pb == Padded(b, m) IN [i \in 1..m |-> 2 * pb[i] - pa[i]]
+FlatTriangle(a, b, m) == LET c == Far(a, b, m)  dab == SqDist(a, b)  dbc == SqDist(b, c)  dac == SqDist(a, c)  r == dac - dab - dbc IN
+                         r >= 0 /\ r * r = 4 * dab * dbc
 =============================================================================
